@@ -87,6 +87,8 @@ def assemble(unit_name, unit):
                 args += ["--opaque", o]
             for o in piece.get("fn_mono", []):
                 args += ["--fn-mono", o]
+            for o in piece.get("hoist", []):
+                args += ["--hoist", o]
             txt = run_vx(args, log_path)
             for a, b in piece.get("subst", []):
                 txt = txt.replace(a, b)
